@@ -99,7 +99,8 @@ PROPS = {
         "sweep": [],
         "explanation": "State logic only: keep_alive_id == outstanding(event log) is a verified representation invariant of receive_packet, "
                        "handle_keep_alive and keep_alive; the tick branch sends the localized timeout Disconnect and fails iff an id is outstanding, else "
-                       "sends exactly one Keep Alive; receive_packet(false) never sends; handle_keep_alive clears iff the ids are equal.",
+                       "sends exactly one Keep Alive; receive_packet(false) never sends; handle_keep_alive clears iff the ids are equal. The trace predicate ka_wf "
+                       "(a Keep Alive is sent only directly after a timer tick and only while none is unanswered) is preserved by every function and is a postcondition of listen.",
         "not_covered": ["'at least every 16 seconds', 'not dropped however long routing takes', 'Transfer as soon as routing completes': wall-clock and "
                         "scheduler facts of tokio Interval/select!, outside sequential contracts"],
         "assumptions": ["Interval::tick completes when a period elapsed (not modelled)"],
